@@ -708,6 +708,12 @@ fn to_list(ctx: &Context, top: &Number, list: &[&str]) -> Result<Vec<NumberParts
             ))));
         }
     }
+    if units.iter().any(|unit| unit.value == Numeric::zero()) {
+        // e.g. `ans` after a zero result: nothing can be counted in it.
+        return Err(QueryError::generic(
+            "Units in unit list must not be zero".to_string(),
+        ));
+    }
     let mut value = top.value.clone();
     let mut out = vec![];
     let len = units.len();
